@@ -18,6 +18,11 @@ DEFAULT_RULE = ("cases come from harness/src/gen.rs (one SplitMix64 stream seede
                 "(at least one database/shell/sleep event, or a failure verdict)")
 
 PROPS = {
+    "C07": {
+        "runs": [{"profile": "update", "n_quick": 2500, "n_thorough": 60000, "nontrivial": "update"}],
+        "observable": "bytes of every file of the tree after Runner::update_test_file (real files, include trees), database call trace; oracle on the implementation alone: parse(before) vs parse(after) agree on every field but the expectation",
+        "explanation": "random include trees (root + 0..3 included files, depth <= 2, glob and literal includes) with records of all kinds, ~50% wrong expectations, halts, controls, guards, named connections, retry clauses, failing connections; both separators; strict and default column validator",
+    },
     "C03": {
         "runs": [{"profile": "c03", "n_quick": 15000, "n_thorough": 300000, "nontrivial": "parse"}],
         "observable": "ok + every field of every parsed record incl. 1-based line numbers | err kind line; compared three ways: implementation = Lean parser model = the records the generator of the text intended",
